@@ -28,6 +28,13 @@ func GenDatum(s *Schema, r Source, o GenOpts, depth int) Datum {
 	case "boolean":
 		return r.Intn(2) == 1
 	case "int":
+		if s.Hint == "int16" {
+			// the reader's target is a 16-bit integer: stay within its range
+			if r.Intn(2) == 0 {
+				return int64([]int16{0, 1, -1, math.MaxInt16, math.MinInt16, 1 << 10}[r.Intn(6)])
+			}
+			return int64(int16(r.Uint64()))
+		}
 		switch r.Intn(3) {
 		case 0:
 			return int64(r.Intn(200) - 100)
